@@ -125,6 +125,19 @@ CLAIMED = {
         "become opaque); info['iterations'] is covered by a bounded stand-in on the real while_loop_winfo and is a listed known finding.",
    technique="contract-stubbed proxy execution over a column-family domain; loop invariant rule for while_loop_winfo; z3/cvc5",
    engine="ALG"),
+ "C20": dict(
+   category="proof",
+   text="The real LinearOperator.__getitem__ (every match arm: A[i], A[i,j], A[i,b], A[b,j], A[s], A[rows,cols], A[[i..],[j..]]), Sliced.__init__, "
+        "Sliced._matmat/_rmatmat, nested slicing and the base to_dense run over an abstract n x m operator in the index domain; every result entry, at "
+        "an arbitrary position, must equal the same indexing expression applied to the matrix, with the right shape. Slices have symbolic "
+        "start/stop (negative, None, out of range via the slice.indices contract) and steps in {1,2,-1} (quick) / {1,2,3,-1,-2} (thorough); integer "
+        "index arrays are arbitrary index functions; square, wide and tall shapes; complex operand dtype clause.",
+   design_ref="4.20",
+   note="entries range over R with conjugation as an uninterpreted involution; linear kernels are checked on the basis X = I (universal in the "
+        "column); scatter through an index array assumes distinct indices (duplicate indices: listed known finding); NumPy indexing primitives "
+        "are index-transformer contracts; one-hot Sigma elimination is performed by the generator.",
+   technique="proxy execution of the real indexing code in an index-function domain; quantifier-free integer/UF VCs discharged by z3/cvc5",
+   engine="IDX"),
 }
 
 NOT_YET = "check not built yet in this session (framework under construction; see DESIGN.md section 10 for the order of work)"
